@@ -73,6 +73,27 @@ def comp_signature(fn, node, depth=0):
         if len(defs) == 1 and isinstance(defs[0], ast.Call) and isinstance(defs[0].func, ast.Name) and defs[0].func.id in ('list', 'tuple') \
                 and len(defs[0].args) == 1:
             return comp_signature(fn, defs[0].args[0], depth + 1)
+        # the loop spelling of the same thing: `name = []` and one `for v in src: [if c:] name.append(v)`
+        if len(defs) == 1 and ((isinstance(defs[0], (ast.List, ast.Set)) and not defs[0].elts) or
+                               (isinstance(defs[0], ast.Call) and isinstance(defs[0].func, ast.Name) and defs[0].func.id in ('list', 'set') and not defs[0].args)):
+            import re
+            from ..index import walk_local
+            fills = []
+            for loop in [l for l in walk_local(fn) if isinstance(l, ast.For) and isinstance(l.target, ast.Name)]:
+                def visit(stmts, conds, loop=loop):
+                    for st in stmts:
+                        if isinstance(st, ast.Expr) and isinstance(st.value, ast.Call) and isinstance(st.value.func, ast.Attribute) and st.value.func.attr in ('append', 'add') \
+                                and isinstance(st.value.func.value, ast.Name) and st.value.func.value.id == node.id:
+                            fills.append((loop, st.value, list(conds)))
+                        elif isinstance(st, ast.If) and not st.orelse:
+                            visit(st.body, conds + [st.test])
+                visit(loop.body, [])
+            if len(fills) == 1 and len(fills[0][1].args) == 1:
+                loop, _call, conds = fills[0]
+                src, filters = comp_signature(fn, loop.iter, depth + 1)
+                var = loop.target.id
+                own = {re.sub(r'\b{}\b'.format(re.escape(var)), '_', u(c)) for c in conds}
+                return src, frozenset(filters | own)
         return node.id, frozenset()
     if isinstance(node, (ast.ListComp, ast.GeneratorExp, ast.SetComp)) and len(node.generators) == 1:
         gen = node.generators[0]
@@ -86,6 +107,25 @@ def comp_signature(fn, node, depth=0):
             own.add(re.sub(r'\b{}\b'.format(re.escape(var)), '_', text))
         return src, frozenset(filters | own)
     return u(node), frozenset()
+
+
+def comp_element(fn, node):
+    """Source text of what a name bound once to a comprehension (or filled by one `for ..: name.append(e)` loop) collects per element."""
+    from ..util import assignments_to
+    from ..index import walk_local
+    if not isinstance(node, ast.Name):
+        return u(node.elt) if isinstance(node, (ast.ListComp, ast.GeneratorExp, ast.SetComp)) else None
+    defs = assignments_to(fn, node.id)
+    if len(defs) != 1:
+        return None
+    d = defs[0]
+    if isinstance(d, ast.Call) and isinstance(d.func, ast.Name) and d.func.id in ('list', 'tuple') and len(d.args) == 1:
+        d = d.args[0]
+    if isinstance(d, (ast.ListComp, ast.GeneratorExp, ast.SetComp)):
+        return u(d.elt)
+    apps = [c for c in walk_local(fn) if isinstance(c, ast.Call) and isinstance(c.func, ast.Attribute) and c.func.attr in ('append', 'add') and
+            isinstance(c.func.value, ast.Name) and c.func.value.id == node.id and len(c.args) == 1]
+    return u(apps[0].args[0]) if len(apps) == 1 else None
 
 
 def raise_condition_is(ck, module, fn, pick, classify, expected, what, key, rule='DT-reject'):
